@@ -1,5 +1,5 @@
 """C07 - homology over a Euclidean domain: assembly of rank / torsion / coordinate maps from the SNF blocks (E19)."""
-import e19_homcalc, e3_gcd, e2_float
+import e19_homcalc, e3_gcd, e2_float, e21_snfscan
 
 LEVEL = 'other'
 EXPLANATION = ('Given Smith normal forms with P*P^-1 = 1, Q*Q^-1 = 1 (C09), the homology record is assembled from row/column ranges of those '
@@ -27,4 +27,6 @@ def run(ctx, rep):
     e19_homcalc.check_summand(facts, rep)
     rep.rule('E3', e3_gcd.__doc__.strip().split('\n')[0])
     e3_gcd.run(facts, rep)
+    rep.rule('E21', e21_snfscan.__doc__.strip().split('\n')[0])
+    e21_snfscan.run(facts, rep)
     e2_float.apply(facts, rep, scope, 'C07', floor_scope=5)
